@@ -163,6 +163,21 @@ def run(ctx):
                 e4.hist_lines(ctx, out, "exhaustive_small_len%d" % L2)
             broken += check_stream(ctx, "exhs_%d" % sh, os.path.join(ctx.work, "exh_%d.ops" % sh),
                                    os.path.join(ctx.work, "exh_%d.impl" % sh))
+        if ctx.thorough():
+            # full alphabet, length 4: a 1/32 strided sample of the 5.3 million histories
+            jobs = [(binp, "TestVerifE4Exhaustive", {"VERIF_LEN": 4, "VERIF_SHARD": (s * 32 + ctx.seed) % 256,
+                                                      "VERIF_NSHARD": 256, "VERIF_ALPHA": "full"}, 1500) for s in range(nsh)]
+            res = e4.run_parallel(ctx, jobs, workers=nsh)
+            for s, (rc, out) in enumerate(res):
+                sh = (s * 32 + ctx.seed) % 256
+                if rc != 0:
+                    ctx.log("exhaustive(full,4) shard %d failed:\n%s" % (sh, out[-1500:]))
+                    broken.append("exhaustive(full,4) harness shard %d exit %s" % (sh, rc))
+                    continue
+                if s == 0:
+                    e4.hist_lines(ctx, out, "exhaustive_full_len4_sample")
+                broken += check_stream(ctx, "exh4_%d" % sh, os.path.join(ctx.work, "exh_%d.ops" % sh),
+                                       os.path.join(ctx.work, "exh_%d.impl" % sh))
         # long random histories (real HTTP)
         nr = ctx.budget(2, 8)
         jobs = [(binp, "TestVerifE4Random", {"VERIF_N": ctx.budget(12, 60), "VERIF_LEN": ctx.budget(150, 300),
